@@ -196,3 +196,26 @@ def same_layout_cases(rng, nsub=3, compressed=False, edition=4):
                 yield name, R.build_message(ids, B, D, AssignPolicy(rng, [1], bits, phase=rng.randint(0, 5)), nsub, compressed, edition)
             except R.Unsupported:
                 continue
+
+
+# quantitative edges: many subsets (beyond 63 / 255 / 256), replication counts at the limits of their factors
+class _BigCounts(R.Policy):
+    def count(self, pw, w, eid):
+        return {31000: 1, 31001: 254, 31002: 300}.get(eid, 2)
+
+
+def big_cases(rng):
+    """yield (name, msg)"""
+    B, D = tables(33)
+    specs = [('many-subsets-compressed-300', [1001, 12001, 1015, 2001], 300, True, R.Policy(rng)),
+             ('many-subsets-compressed-64', [1001, 12001, 20011], 64, True, R.Policy(rng)),
+             ('many-subsets-uncompressed-260', [1001, 12001, 101000, 31001, 4024], 260, False, R.Policy(rng)),
+             ('replication-254', [1001, 101000, 31001, 12001], 2, False, _BigCounts(rng)),
+             ('replication-300', [1001, 102000, 31002, 12001, 2001], 1, False, _BigCounts(rng)),
+             ('replication-300-compressed', [102000, 31002, 12001, 2001, 1001], 3, True, _BigCounts(rng)),
+             ('fixed-replication-255', [101255, 12001, 1001], 1, False, R.Policy(rng))]
+    for name, ids, nsub, comp, pol in specs:
+        try:
+            yield name, R.build_message(ids, B, D, pol, nsub, comp, 4)
+        except R.Unsupported:
+            continue
